@@ -2,6 +2,8 @@
 import os, re, time
 from .. import meta as M
 from ..core import Violation, VERIF, modules_for
+from .. import chanmap, build
+from ..core import Violation, VERIF
 
 # class of a script (vlib/meta.py `expected`, mirroring the hypotheses of the …_partial theorems) -> known-finding id, failure
 # signatures that class may show.  `str-*` = any string mismatch.
@@ -11,22 +13,14 @@ CLASS_KF = {
     "smpl-detune": ("KF-C12-SMPL-DETUNE", {"inst-detune", "inst-ranges-detune"}),
     "aiff-inst": ("KF-C12-AIFF-INST", {"inst-missing", "cues-missing"}),
     "info-2046": ("KF-C12-INFO-2046", {"str-*"}),
-    "aiff-8190": ("KF-C12-AIFF-8190", {"reopen-null"}),
+    "aiff-8190": ("KF-C12-AIFF-8190", {"str-*"}),
     "caf-16k": ("KF-C12-CAF-16K", {"str-*"}),
     "header-cache": ("C13-header-cache", {"str-*", "reopen-null", "bext-missing", "cart-missing", "cues-missing", "inst-missing", "audio"}),
-    "bext-10k": ("KF-C12-BEXT-10K", {"bext-missing"}),
-    "cart-16k": ("KF-C12-CART-16K", {"cart-missing"}),
-    "rifx-endian": ("KF-C12-RIFX-ENDIAN", {"reopen-null", "audio", "cues-missing", "cues-differ", "str-*", "bext-missing", "cart-missing", "inst-missing", "bext-differs", "cart-differs", "inst-differs"}),
-    "late-grow": ("KF-C12-LATE-GROW", {"audio", "reopen-null"}),
     "aiff-late-replace": ("KF-C12-AIFF-LATE-REPLACE", {"audio", "str-*", "reopen-null"}),
-    "str-slots": ("KF-C12-STR-SLOTS", {"str-*"}),
-    "cue-second-set": ("KF-C12-CUE-SECOND-SET", {"cues-differ"}),
-    "software-127": ("KF-C12-SOFTWARE-127", {"str-3"}),
     "aiff-sanitize": ("KF-C12-AIFF-SANITIZE", {"str-2", "str-3"}),
-    "aiff-appl-stale": ("KF-C12-AIFF-APPL-STALE", {"str-3-stale-suffix"}),
 }
-MODELLED = ("wav", "wavex", "rf64")
-UNMODELLED = {"header-cache", "late-grow"}      # classes whose failure the Lean model does not predict (header cache, audio overwritten by a grown header)
+MODELLED = ("wav", "wavex", "rf64", "aiff", "caf")
+UNMODELLED = {"header-cache", "aiff-late-replace"}      # classes whose failure the Lean model does not predict
 SUBS = (2, 3, 4)
 
 
@@ -130,16 +124,14 @@ def gen(ctx):
     for cont in strconts:
         sup = list(M.STR_SUPPORT[cont])
         for L in STR_LENS[cont]:
-            for rep in range(4 if not thorough else 16):
+            for rep in range(4 if not thorough else 40):
                 tys = rng.sample(sup, min(3, len(sup)))
                 big = tys[rng.randrange(len(tys))]
                 sets = []
                 for ty in tys:
                     n = L if ty == big else rng.choice([1, 2, 7, 30])
                     if ty == 3:
-                        n = min(n, 100)
-                    if cont == "aiff" and ty == 3:
-                        n = min(n, 60)
+                        n = min(n, 2000)       # the suffix is added to it
                     sets.append(S(ty, text(rng, n, ascii_only=(cont == "aiff" and ty in (2, 3)) or ty == 3)))
                 add("str-%s-%d-%d" % (cont, L, rep), "strings", cont, sets)
         for rep in range(6 if not thorough else 30):
@@ -157,11 +149,15 @@ def gen(ctx):
             [S(ty, text(rng, rng.choice([1, 2, 9, 30]), ascii_only=(ty in (2, 3)))) for ty in tys])
         add("str-software-%s" % cont, "strings", cont, [S(3, b""), S(1, b"t")])
         add("str-software2-%s" % cont, "strings", cont, [S(3, b"made with libsndfile-0.0.1 by hand"), S(4, b"a")])
-        add("str-software3-%s" % cont, "strings", cont, [S(3, text(rng, 108 if cont != "aiff" else 60, ascii_only=True)), S(4, b"a")])
+        for n in (107, 108, 109, 127, 128, 500):      # around the former 128-byte buffer
+            add("str-software3-%s-%d" % (cont, n), "strings", cont, [S(3, text(rng, n, ascii_only=True)), S(4, b"a")])
+        add("str-software4-%s" % cont, "strings", cont, [S(3, text(rng, 300, ascii_only=True) + b" libsndfile inside"), S(4, b"a")])
+        # more than 32 calls: the 33rd and later are refused, what was stored stays
+        add("str-40-calls-%s" % cont, "strings", cont, [S(1, b"first")] + [S(4, b"a%d" % k) for k in range(31)] + [S(1, b"again"), S(5, b"never stored"), S(4, b"nor this")])
         add("str-empty-null-%s" % cont, "strings", cont, [S(1, b""), S(2, None), S(4, b"kept"), "setstr h0 77 41", "setstr h0 -1 41"])
     # 2. bext
     for cont in ("wav", "wavex", "rf64", "rifx"):
-        for n in [0, 1, 2, 3, 255, 256, 1000, 4000, 9000] + ([9500, 9580] if thorough else []):
+        for n in [0, 1, 2, 3, 255, 256, 1000, 4000, 9000, 9580, 9588, 9590, 12000, 16000, 16300, 16383] + ([9500, 9589, 16330, 16382] if thorough else []):
             for e in range(3 if not thorough else 8):
                 ends = ENDINGS if e else [rng.choice(ENDINGS)]
                 hist = lines_text(rng, n, ends)
@@ -171,17 +167,17 @@ def gen(ctx):
         add("bext-twice-%s" % cont, "bext", cont, [bext_cmd(rng, b"first\n"), S(5, b"c"), bext_cmd(rng, b"second line\rthird")])
         add("bext-nul-%s" % cont, "bext", cont, [bext_cmd(rng, b"ab\0cd\nef")])
     # 3. cart
-    for cont in ("wav", "rf64"):
-        for n in [0, 1, 2, 3, 100, 1000, 8000, 16000]:
+    for cont in ("wav", "rf64", "rifx"):
+        for n in [0, 1, 2, 3, 100, 1000, 8000, 16000, 16380, 16381, 16382, 16383]:
             tag = lines_text(rng, n, ENDINGS)
             if n and rng.random() < 0.5:
                 tag = tag.rstrip(b"\r\n") or b"y"
             add("cart-%s-%d" % (cont, n), "cart", cont, [cart_cmd(rng, tag), S(4, b"A")])
     # 4. cue points
-    for cont in ("wav", "wavex"):
+    for cont in ("wav", "wavex", "rifx"):
         for n in [0, 1, 2, 3, 10, 50, 99, 100] + ([101, 500, 2500] if thorough else []):
             add("cue-%s-%d" % (cont, n), "cues", cont, [M.setcues_line("h0", cues(rng, n))])
-    for n in [0, 1, 2, 3, 10, 50, 100]:
+    for n in [0, 1, 2, 3, 10, 50, 100] + ([101, 1000, 2500] if thorough else []):
         add("cue-aiff-%d" % n, "cues", "aiff", [M.setcues_line("h0", cues(rng, n, names=True))])
     # 5. instrument
     for cont in ("wav", "wavex", "rifx"):
@@ -192,15 +188,17 @@ def gen(ctx):
                          ("wavex", 6, (2, 3, 4, 7, 5, 6)), ("caf", 6, (2, 3, 4, 7, 5, 6)), ("wav", 2, (2, 3)), ("caf", 2, (3, 4)), ("wavex", 2, (0, 1)), ("wavex", 2, (2, 99))):
         add("chmap-%s-%s" % (cont, "_".join(map(str, mp))), "chmap", cont, [chmap_cmd(mp), S(1, b"T")], ch=ch)
     # 7. several items in one header, random order
-    for rep in range(120 if not thorough else 1000):
+    for rep in range(120 if not thorough else 5000):
         cont = rng.choice(["wav", "wav", "wavex", "rf64", "rifx", "aiff", "caf"])
-        sets = [S(ty, text(rng, rng.choice([1, 2, 9, 100, 255] if ty != 3 else [1, 2, 9, 60]), ascii_only=(cont == "aiff" and ty in (2, 3)))) for ty in rng.sample(list(M.STR_TYPES), rng.randrange(1, 6))]
+        sets = [S(ty, text(rng, rng.choice([1, 2, 9, 100, 255]), ascii_only=(cont == "aiff" and ty in (2, 3)))) for ty in rng.sample(list(M.STR_TYPES), rng.randrange(1, 6))]
         if cont in M.BEXT_SUPPORT and rng.random() < 0.7:
             sets.append(bext_cmd(rng, lines_text(rng, rng.choice([0, 5, 300]), ENDINGS)))
         if cont in M.CART_SUPPORT and rng.random() < 0.6:
             sets.append(cart_cmd(rng, lines_text(rng, rng.choice([0, 5, 300]), ENDINGS)))
-        if cont in ("wav", "wavex", "aiff") and rng.random() < 0.6:
+        if cont in ("wav", "wavex", "aiff", "rifx") and rng.random() < 0.6:
             sets.append(M.setcues_line("h0", cues(rng, rng.randrange(0, 12), names=(cont == "aiff"))))
+            if rng.random() < 0.3:      # a second set replaces the first
+                sets.append(M.setcues_line("h0", cues(rng, rng.randrange(0, 5), names=(cont == "aiff"))))
         if cont in ("wav", "wavex", "rifx") and rng.random() < 0.6:
             sets.append(inst_cmd(rng, rng.randrange(0, 5)))
         ch = rng.choice([1, 2])
@@ -220,6 +218,14 @@ def gen(ctx):
             if k == "bext-first" and cont in M.BEXT_SUPPORT:
                 continue        # a bext block exists already: that is the late-grow class below
             add("late-%s-%s" % (cont, k), "late", cont, base, late=ops, ch=2)
+        if cont in M.BEXT_SUPPORT:      # after the audio: a block of the same size is an update, a block of another size is refused
+            h = lines_text(rng, 40, [b"\r\n"]) + b"\r\n"
+            add("late-%s-bext-update" % cont, "late", cont, [bext_cmd(rng, h)], late=[bext_cmd(rng, h)], ch=2)
+            add("late-%s-bext-grow" % cont, "late", cont, [bext_cmd(rng, h)], late=[bext_cmd(rng, h + lines_text(rng, rng.choice([1, 2, 14, 15, 16, 17, 200]), [b"\r\n"]))], ch=2)
+            add("late-%s-bext-shrink" % cont, "late", cont, [bext_cmd(rng, h)], late=[bext_cmd(rng, h[:rng.choice([0, 10, 30])])], ch=2)
+        if cont in M.CART_SUPPORT:
+            add("late-%s-cart-update" % cont, "late", cont, [cart_cmd(rng, b"tag text\r\n")], late=[cart_cmd(rng, b"TAG TEXT\r\n")], ch=2)
+            add("late-%s-cart-grow" % cont, "late", cont, [cart_cmd(rng, b"t")], late=[cart_cmd(rng, b"tag" * rng.choice([1, 5, 50]))], ch=2)
         # an odd number of audio bytes (pad byte before the trailing chunks) and a long audio section
         add("late-%s-str-odd" % cont, "late", cont, base, late=[S(5, b"a late comment"), S(2, b"(c) late")], ch=1, sub=3, frames=rng.choice([1, 3, 5, 7]))
         add("late-%s-str-odd-only" % cont, "late", cont, [], late=[S(1, b"late title")], ch=1, sub=3, frames=rng.choice([1, 3, 5, 7]))
@@ -288,10 +294,11 @@ def impl_view(script, lines):
     """the transcript lines the model predicts: result codes of the SET calls on h0 and the meta line of h1"""
     ops = [l.split() for l in script.split("\n") if l.strip()]
     out = []
+    x = M.cont_of(int(re.search(r"fmt=([0-9a-f]+)", script).group(1), 16)) in ("aiff", "caf")
     for t, l in zip(ops, lines):
         if t[0] in ("setstr", "setcues") and t[1] == "h0":
             out.append(l.split()[0] if l else "")
-        elif t[0] == "cmd" and t[1] == "h0" and t[2] in ("10f1", "1400", "10d1"):
+        elif t[0] == "cmd" and t[1] == "h0" and (t[2] in ("10f1", "1400", "10d1") or (x and t[2] == "1101")):
             out.append(l.split()[0] if l else "")
         elif t[0] == "getmeta" and t[1] == "h1":
             out.append(l)
@@ -302,7 +309,7 @@ def same_meta(a, b):
     da, db = M.parse_meta(a.replace("chmap=?", "chmap=0:")), M.parse_meta(b)
     if da is None or db is None:
         return "no meta line (%s | %s)" % (a[:40], b[:40])
-    for k in list(M.STR_TYPES) + ["bext", "cart", "cuecount", "cues", "inst"]:
+    for k in list(M.STR_TYPES) + ["bext", "cart", "cuecount", "cues", "inst"] + ([] if "chmap=?" in a else ["chmap"]):
         x, y = da.get(k), db.get(k)
         if k == "cart" and x and y:
             x, y = (x[0], M.mask_cart(x[1])), (y[0], M.mask_cart(y[1]))
@@ -374,8 +381,8 @@ def check_known(ctx, package):
         if rc != 0:
             ctx.violation("witness-" + e["id"], replay_text("the witness of %s now ends in a sanitizer abort / crash (rc=%d): %s" % (e["id"], rc, err[-600:]), script))
         elif e.get("status") == "fixed":
-            if sig:
-                ctx.violation("regression-" + e["id"], replay_text("the repaired defect %s (%s) is back: %s" % (e["id"], e.get("commit"), e["signature"]), script))
+            if F and "C12" in e["id"]:
+                ctx.violation("regression-" + e["id"], replay_text("the repaired defect %s (%s) is back: %s\n%s" % (e["id"], e.get("commit"), e["signature"], "; ".join(f[1] for f in F)[:800]), script))
         elif sig:
             ctx.known_finding(e, "%s [%s] witness=%s" % (e["text"], e["id"], e["witness"]))
     return still
@@ -385,12 +392,19 @@ def run(ctx):
     if getattr(ctx, "replay", None):
         return replay(ctx)
     failed = ctx.lean_stage(modules_for("C12"))
+    # the channel-layout table of the tree under test (src/chanmap.c) goes into the model; its consistency is a theorem (layout_tags_nodup)
+    try:
+        ctx.set_generated("ChanMap.lean", chanmap.lean_text(build.REPO))
+    except Exception as e:          # the table cannot be extracted any more: the Lean stage then runs on the committed one
+        ctx.notes["chanmap_extraction_failed"] = repr(e)
+    failed = ctx.lean_stage(["SfProps.C12", "SfProps.C12X", "SfProps.C12Order"])
     if not os.path.exists(ctx.sfmodel()):
         ctx.violation("lean-stage", "the model driver does not build: %s\n%s" % (", ".join(failed), ctx.notes.get("lean_log_tail", "")), no_input=True)
         raise Violation()
     ctx.sfh()
     package = lib_package(ctx)
     ctx.notes["library_package"] = package
+    ctx.run_regressions()
     still = check_known(ctx, package)
     found_input = bool(ctx.violations)
 
